@@ -331,3 +331,154 @@ VARIANTS += [
              (P, '\t// Check signatureEnvelopeType is honored.\n', '\ts.keepAnnotations(resp.Annotations)\n\t// Check signatureEnvelopeType is honored.\n'),
              (P, MERGE_FN, SETTER + MERGE_FN)]),
 ]
+
+# ===== second pass: filter-while-collecting scans; the chain parser found by value (inlined / handed the response) =====
+SCAN_FILTER = r'''func areUnknownAttributesAdded(content []byte) []string {
+	var payloadMap map[string]interface{}
+
+	// Ignoring error because we already successfully unmarshalled before this
+	// point
+	_ = json.Unmarshal(content, &payloadMap)
+	descriptor, _ := payloadMap["targetArtifact"].(map[string]interface{})
+
+	unknownAttributes := make([]string, 0, len(descriptor)+len(payloadMap))
+	for k := range descriptor {
+		switch k {
+		case "mediaType", "digest", "size", "urls", "annotations", "data", "platform", "artifactType":
+			// expected descriptor key
+		default:
+			unknownAttributes = append(unknownAttributes, k)
+		}
+	}
+	for k := range payloadMap {
+		if k != "targetArtifact" {
+			unknownAttributes = append(unknownAttributes, k)
+		}
+	}
+	return unknownAttributes
+}
+
+'''
+
+# two accumulators, if-chain with continue, `||` conditions, nil start value
+SCAN_FILTER_TWO = r'''func areUnknownAttributesAdded(content []byte) []string {
+	var decoded map[string]any
+	_ = json.Unmarshal(content, &decoded)
+	var extraInPayload []string
+	for name := range decoded {
+		if name == "targetArtifact" {
+			continue
+		}
+		extraInPayload = append(extraInPayload, name)
+	}
+	extraInDescriptor := []string{}
+	target, _ := decoded["targetArtifact"].(map[string]any)
+	for name := range target {
+		if name == "mediaType" || name == "digest" || name == "size" || name == "urls" {
+			continue
+		}
+		if name == "annotations" || name == "data" || name == "platform" || name == "artifactType" {
+			continue
+		}
+		extraInDescriptor = append(extraInDescriptor, name)
+	}
+	return append(extraInDescriptor, extraInPayload...)
+}
+
+'''
+
+# descriptor level: slices.Contains over a constant list; payload level: delete + the key-set helper (mixed spelling)
+SCAN_FILTER_MIXED = r'''var descriptorAttributes = []string{"mediaType", "digest", "size", "urls", "annotations", "data", "platform", "artifactType"}
+
+func areUnknownAttributesAdded(content []byte) []string {
+	var payloadMap map[string]interface{}
+	_ = json.Unmarshal(content, &payloadMap)
+	descriptor, _ := payloadMap["targetArtifact"].(map[string]interface{})
+	var unknownAttributes []string
+	for k := range descriptor {
+		if !slices.Contains(descriptorAttributes, k) {
+			unknownAttributes = append(unknownAttributes, k)
+		}
+	}
+	delete(payloadMap, "targetArtifact")
+	return append(unknownAttributes, getKeySet(payloadMap)...)
+}
+
+'''
+IMPORT_SLICES = (P, '\t"fmt"\n\t"time"\n', '\t"fmt"\n\t"slices"\n\t"time"\n')
+
+VARIANTS += [
+ # ---- shape: the scan filters while it collects (range + switch / if chain / slices.Contains), one or two accumulators
+ dict(name='benign-scan-filter-while-collecting', file=P, expect='silent', find=SCAN, replace=SCAN_FILTER,
+      why='every key not compared equal to a descriptor JSON name (or targetArtifact at the payload level) is appended to the slice returned'),
+ dict(name='benign-scan-filter-two-accumulators', file=P, expect='silent', find=SCAN, replace=SCAN_FILTER_TWO,
+      why='one accumulator per level, joined by append at the return; guard clauses with continue; payload level first'),
+ dict(name='benign-scan-filter-mixed-with-delete', expect='silent', edits=[IMPORT_SLICES, (P, SCAN, SCAN_FILTER_MIXED)],
+      why='descriptor level filtered by slices.Contains over a constant list, payload level by delete + key-set helper'),
+ dict(name='filter-scan-extra-key-allowed', file=P, expect='flagged(scan/removes-only-descriptor-fields)', find=SCAN,
+      replace=_sub(SCAN_FILTER, '"platform", "artifactType":', '"platform", "artifactType", "subject":')),
+ dict(name='filter-scan-payload-level-extra-key-allowed', file=P, expect='flagged(scan/removes-only-descriptor-fields)', find=SCAN,
+      replace=_sub(SCAN_FILTER, 'if k != "targetArtifact" {', 'if k != "targetArtifact" && k != "signingScheme" {')),
+ dict(name='filter-scan-target-artifact-allowed-inside-descriptor', file=P, expect='flagged(scan/removes-only-descriptor-fields)', find=SCAN,
+      replace=_sub(SCAN_FILTER, '"platform", "artifactType":', '"platform", "artifactType", "targetArtifact":')),
+ dict(name='filter-scan-nonconstant-filter', file=P, expect='flagged(scan/reports-both-levels)', find=SCAN,
+      replace=_sub(SCAN_FILTER, '\t\tdefault:\n\t\t\tunknownAttributes = append(unknownAttributes, k)\n', '\t\tdefault:\n\t\t\tif len(k) < 12 {\n\t\t\t\tunknownAttributes = append(unknownAttributes, k)\n\t\t\t}\n')),
+ dict(name='filter-scan-accumulator-reset-between-levels', file=P, expect='flagged(scan/reports-both-levels)', find=SCAN,
+      replace=_sub(SCAN_FILTER, '\tfor k := range payloadMap {\n', '\tunknownAttributes = unknownAttributes[:0]\n\tfor k := range payloadMap {\n')),
+ dict(name='filter-scan-stale-accumulator', file=P, expect='flagged(scan/reports-both-levels)', find=SCAN,
+      replace=_sub(_sub(SCAN_FILTER, '\tunknownAttributes := make([]string, 0, len(descriptor)+len(payloadMap))\n', '\tunknownAttributes := make([]string, 0, len(descriptor)+len(payloadMap))\n\tnone := unknownAttributes\n'),
+                   '\t\tdefault:\n\t\t\tunknownAttributes = append(unknownAttributes, k)\n', '\t\tdefault:\n\t\t\tunknownAttributes = append(none, k)\n')),
+ dict(name='filter-scan-loop-left-early', file=P, expect='flagged(scan/reports-both-levels)', find=SCAN,
+      replace=_sub(SCAN_FILTER, '\t\tif k != "targetArtifact" {\n\t\t\tunknownAttributes = append(unknownAttributes, k)\n\t\t}\n', '\t\tif k == "targetArtifact" {\n\t\t\tbreak\n\t\t}\n\t\tunknownAttributes = append(unknownAttributes, k)\n')),
+ dict(name='filter-scan-early-return-without-descriptor', file=P, expect='flagged(scan/reports-both-levels)', find=SCAN,
+      replace=_sub(SCAN_FILTER, '\tunknownAttributes := make(', '\tif len(descriptor) == 0 {\n\t\treturn nil\n\t}\n\tunknownAttributes := make(')),
+ dict(name='filter-scan-descriptor-level-not-ranged', file=P, expect='flagged(scan/reports-both-levels)', find=SCAN,
+      replace=_sub(SCAN_FILTER, '\tfor k := range descriptor {\n', '\tfor k := range payloadMap {\n')),
+ dict(name='filter-scan-one-accumulator-returned', file=P, expect='flagged(scan/reports-both-levels)', find=SCAN,
+      replace=_sub(SCAN_FILTER_TWO, '\treturn append(extraInDescriptor, extraInPayload...)\n', '\treturn extraInDescriptor\n')),
+ dict(name='filter-scan-two-accumulators-skip-unequal', file=P, expect='flagged(scan/)', find=SCAN,
+      replace=_sub(SCAN_FILTER_TWO, '\t\tif name == "targetArtifact" {\n\t\t\tcontinue\n\t\t}\n', '\t\tif name != "signingScheme" {\n\t\t\tcontinue\n\t\t}\n')),
+ dict(name='filter-scan-list-has-extra-key', expect='flagged(scan/removes-only-descriptor-fields)',
+      edits=[IMPORT_SLICES, (P, SCAN, _sub(SCAN_FILTER_MIXED, '"platform", "artifactType"}', '"platform", "artifactType", "subject"}'))]),
+ dict(name='filter-scan-list-can-grow', expect='flagged(scan/)',
+      edits=[IMPORT_SLICES, (P, SCAN, SCAN_FILTER_MIXED + '// AllowDescriptorAttribute registers a further descriptor attribute.\nfunc AllowDescriptorAttribute(k string) {\n\tdescriptorAttributes = append(descriptorAttributes, k)\n}\n\n')]),
+ dict(name='filter-scan-mixed-payload-level-dropped', expect='flagged(scan/reports-both-levels)',
+      edits=[IMPORT_SLICES, (P, SCAN, _sub(SCAN_FILTER_MIXED, '\treturn append(unknownAttributes, getKeySet(payloadMap)...)\n', '\treturn unknownAttributes\n'))]),
+]
+
+CHAIN_CALL = '\tvar certs []*x509.Certificate\n\tif certs, err = parseCertChain(resp.CertificateChain); err != nil {\n\t\treturn nil, nil, err\n\t}\n\treturn resp.Signature, certs, nil\n'
+CHAIN_INLINE = '\tcerts := make([]*x509.Certificate, len(resp.CertificateChain))\n\tfor i, der := range resp.CertificateChain {\n\t\tif certs[i], err = x509.ParseCertificate(der); err != nil {\n\t\t\treturn nil, nil, err\n\t\t}\n\t}\n\treturn resp.Signature, certs, nil\n'
+CHAIN_INLINE_APPEND = '\tcerts := make([]*x509.Certificate, 0, len(resp.CertificateChain))\n\tfor i := 0; i < len(resp.CertificateChain); i++ {\n\t\tparsed, parseErr := x509.ParseCertificate(resp.CertificateChain[i])\n\t\tif parseErr != nil {\n\t\t\treturn nil, nil, parseErr\n\t\t}\n\t\tcerts = append(certs, parsed)\n\t}\n\treturn resp.Signature, certs, nil\n'
+CHAIN_INLINE_LOGGED = '\tfor i, der := range resp.CertificateChain {\n\t\tlog.GetLogger(s.ctx).Debugf("certificate %d: %d bytes", i, len(der))\n\t}\n' + CHAIN_INLINE
+CHAIN_PARSER = 'func parseCertChain(certChain [][]byte) ([]*x509.Certificate, error) {\n\tcerts := make([]*x509.Certificate, len(certChain))\n\tfor i, cert := range certChain {\n\t\tcert, err := x509.ParseCertificate(cert)\n\t\tif err != nil {\n\t\t\treturn nil, err\n\t\t}\n\t\tcerts[i] = cert\n\t}\n\treturn certs, nil\n}\n'
+CHAIN_PARSER_RESP = 'func parseCertChain(keyID string, answer *plugin.GenerateSignatureResponse) ([]*x509.Certificate, error) {\n\tcerts := make([]*x509.Certificate, len(answer.CertificateChain))\n\tfor i, cert := range answer.CertificateChain {\n\t\tcert, err := x509.ParseCertificate(cert)\n\t\tif err != nil {\n\t\t\treturn nil, fmt.Errorf("certificate %d of key %s: %w", i, keyID, err)\n\t\t}\n\t\tcerts[i] = cert\n\t}\n\treturn certs, nil\n}\n'
+CHAIN_CALL_RESP = CHAIN_CALL.replace('parseCertChain(resp.CertificateChain)', 'parseCertChain(req.KeyID, resp)')
+
+VARIANTS += [
+ # ---- shape: the chain parser is inlined into the function that calls GenerateSignature
+ dict(name='benign-cert-chain-parsed-inline', file=P, expect='silent', find=CHAIN_CALL, replace=CHAIN_INLINE,
+      why='the loop over the response chain fails closed on the first parse error; the slice it fills is returned'),
+ dict(name='benign-cert-chain-parsed-inline-append', file=P, expect='silent', find=CHAIN_CALL, replace=CHAIN_INLINE_APPEND,
+      why='explicit index loop, append instead of indexed store, own error variable'),
+ dict(name='benign-cert-chain-parsed-inline-after-logging-loop', file=P, expect='silent', find=CHAIN_CALL, replace=CHAIN_INLINE_LOGGED,
+      why='a second loop over the chain that only logs does not matter'),
+ dict(name='inline-cert-parse-error-skipped', file=P, expect='flagged(raw/generate-signature/cert-chain-parses)', find=CHAIN_CALL,
+      replace=_sub(CHAIN_INLINE, '\t\tif certs[i], err = x509.ParseCertificate(der); err != nil {\n\t\t\treturn nil, nil, err\n\t\t}\n', '\t\tif certs[i], err = x509.ParseCertificate(der); err != nil {\n\t\t\tcontinue\n\t\t}\n')),
+ dict(name='inline-cert-parse-error-returns-success', file=P, expect='flagged(raw/generate-signature/cert-chain-parses)', find=CHAIN_CALL,
+      replace=_sub(CHAIN_INLINE, '\t\t\treturn nil, nil, err\n\t\t}\n\t}\n', '\t\t\treturn resp.Signature, certs[:i], nil\n\t\t}\n\t}\n')),
+ dict(name='inline-cert-chain-only-leaf-parsed', file=P, expect='flagged(raw/generate-signature/cert-chain-parses)', find=CHAIN_CALL,
+      replace=_sub(CHAIN_INLINE, '\tfor i, der := range resp.CertificateChain {\n', '\tfor i, der := range resp.CertificateChain[:min(1, len(resp.CertificateChain))] {\n')),
+ dict(name='inline-cert-chain-loop-skipped-for-long-chains', file=P, expect='flagged(raw/generate-signature/cert-chain-parses)', find=CHAIN_CALL,
+      replace=_sub(CHAIN_INLINE, '\treturn resp.Signature, certs, nil\n', '\treturn resp.Signature, certs, nil\n').replace('\tfor i, der := range resp.CertificateChain {\n', '\tif len(resp.CertificateChain) > 8 {\n\t\treturn resp.Signature, certs, nil\n\t}\n\tfor i, der := range resp.CertificateChain {\n')),
+ dict(name='inline-returns-other-certificates', file=P, expect='flagged(raw/generate-signature/returns)', find=CHAIN_CALL,
+      replace=_sub(CHAIN_INLINE_APPEND, '\treturn resp.Signature, certs, nil\n', '\treturn resp.Signature, make([]*x509.Certificate, len(certs)), nil\n')),
+ # ---- shape: the chain parser is handed the whole response (and more) instead of the chain
+ dict(name='benign-cert-chain-parser-takes-response', expect='silent', edits=[(P, CHAIN_CALL, CHAIN_CALL_RESP), (P, CHAIN_PARSER, CHAIN_PARSER_RESP)],
+      why='the helper ranges over the CertificateChain of the response it is handed; its error is tested by the caller'),
+ dict(name='response-parser-error-ignored', expect='flagged(raw/generate-signature/cert-chain-parses)',
+      edits=[(P, CHAIN_CALL, '\tcerts, _ := parseCertChain(req.KeyID, resp)\n\treturn resp.Signature, certs, nil\n'), (P, CHAIN_PARSER, CHAIN_PARSER_RESP)]),
+ dict(name='response-parser-skips-unparsable', expect='flagged(raw/cert-chain-parser)',
+      edits=[(P, CHAIN_CALL, CHAIN_CALL_RESP), (P, CHAIN_PARSER, _sub(CHAIN_PARSER_RESP, '\t\t\treturn nil, fmt.Errorf("certificate %d of key %s: %w", i, keyID, err)\n', '\t\t\tcontinue\n'))]),
+ dict(name='response-parser-of-other-response', expect='flagged(raw/generate-signature/)',
+      edits=[(P, CHAIN_CALL, CHAIN_CALL.replace('parseCertChain(resp.CertificateChain)', 'parseCertChain(req.KeyID, &plugin.GenerateSignatureResponse{KeyID: resp.KeyID})')), (P, CHAIN_PARSER, CHAIN_PARSER_RESP)]),
+]
